@@ -271,6 +271,40 @@ pub fn run(tier: Tier, shard: Shard, stats: &mut Stats) {
         }
     }
     }
+    // the terminal is resized between two ordinary redraws (0 ms .. 1 s apart): wide_msg follows the new width
+    for (w1, w2) in [(30u16, 12u16), (12, 30), (20, 21)] {
+        for gap_ms in [0u64, 1, 100, 249, 1000] {
+            case += 1;
+            if !shard.owns(case) {
+                continue;
+            }
+            stats.evaluations += 1;
+            stats.transitions += 1;
+            let catcher = LineCatcher::new(w1);
+            let hist = vec!["[{wide_msg}]".to_string(), format!("terminal {w1} columns, redraw, {gap_ms} ms, terminal {w2} columns, redraw"), "message abc".to_string()];
+            let r = catch(|| {
+                let pb = bar_on(&catcher, Some(5), ProgressStyle::with_template("[{wide_msg}]").unwrap()).with_message("abc");
+                pb.tick();
+                catcher.resize(w2);
+                crate::clock::advance_ms(gap_ms);
+                let l = crate::render::frame_lines_tick(&catcher, &pb);
+                pb.abandon();
+                l
+            });
+            match r {
+                Err(p) => stats.violation(Violation { class: format!("panic: {}", panic_class(&p)), config: "wide_msg-resize".into(), history: hist, detail: p }),
+                Ok(lines) => {
+                    let line = lines.first().cloned().unwrap_or_default();
+                    let want = format!("[abc{}]", " ".repeat(w2 as usize - 5));
+                    if line != want {
+                        stats.violation(Violation { class: "wide_msg: field does not follow the current terminal width after a resize".into(), config: "wide_msg-resize".into(), history: hist, detail: format!("rendered {:?} ({} columns), expected {} columns", line, line.chars().count(), w2) });
+                    } else {
+                        stats.state(hash_of(&("wide-resize", w1, w2, gap_ms)), true);
+                    }
+                }
+            }
+        }
+    }
     // two wide elements on two template lines: each line is laid out with its own element
     {
         let catcher = LineCatcher::new(12);
@@ -480,7 +514,8 @@ pub fn run(tier: Tier, shard: Shard, stats: &mut Stats) {
                     let hist = vec![tpl.clone()];
                     let r = catch(|| {
                         let style = ProgressStyle::with_template(&tpl).unwrap().progress_chars("＃－").tick_chars("x ");
-                        let pb = bar_on(&catcher, Some(9), style).with_prefix("pre").with_position(7);
+                        // (the bar key is also drawn with the position beyond the length)
+                        let pb = bar_on(&catcher, Some(9), style).with_prefix("pre").with_position(if key == "bar" && w % 2 == 1 { 30 } else { 7 });
                         let l = frame_lines(&catcher, &pb);
                         pb.abandon();
                         l
